@@ -157,7 +157,7 @@ func c13Ingest(seed int64, i int, sc c13Scenario, dir string, out *childOut) {
 	case "login-handoff-blocked":
 		if openW() {
 			w.WriteString("4242 Accepted password for bob from 10.0.0.1 port 22 ssh2\n")
-			reached = waitParked("sshd.processAcceptedPasswordEntry", "select", c13Watch)
+			reached = waitParked("sshd.processAcceptedPasswordEntry", "select|chan send", c13Watch)
 		}
 	case "downstream-full-consumer-stopped":
 		if openW() {
